@@ -115,6 +115,25 @@ class Net (object):
     self.pump([(i, port, frame)])
     return self.trace, self.delivered
 
+  def inject_burst (self, i, items):
+    """Several frames [(port, frame)] arrive at switch i back to back, before the controller has reacted to any of
+    them.  Returns (records of the burst's arrivals, trace, delivered); emissions caused by the controller's late
+    reactions are not attributed to a record (callers match them by frame content)."""
+    self.trace = []; self.delivered = []
+    st = self.sw[i]; q = collections.deque(); recs = []
+    self.late = []
+    for port, frame in items:
+      before = st.sw._matched_count
+      st.rx(frame, port)
+      rec = [i, port, frame, [], st.sw._matched_count == before, None]
+      self.trace.append(rec); recs.append(rec)
+      for p2, f2 in st.take_out(): self._emit(i, p2, f2, q, rec)
+    while self.pump_control(): pass
+    for p2, f2 in st.take_out():
+      self.late.append((p2, f2)); self._emit(i, p2, f2, q, None)
+    self.pump(list(q))
+    return recs, self.trace, self.delivered
+
   def sweep (self):
     self.trace = []; self.delivered = []
     for st in self.sw: st.sweep()
